@@ -40,8 +40,16 @@ Qed.
 
 Lemma rad_plus_pos X Y Z : Y <> 0 \/ Z <> 0 -> 0 < X + rad X Y Z.
 Proof. intros H. pose proof (rad_gt_abs X Y Z H). pose proof (Rle_abs (- X)). rewrite Rabs_Ropp in *. lra. Qed.
-Lemma rad_minus_pos X Y Z : Y <> 0 \/ Z <> 0 -> 0 < - X + rad X Y Z.
-Proof. intros H. pose proof (rad_gt_abs X Y Z H). pose proof (Rle_abs X). lra. Qed.
+Lemma rad_minus_pos_y X Y Z : X <> 0 \/ Z <> 0 -> 0 < - Y + rad X Y Z.
+Proof.
+  intros H. replace (rad X Y Z) with (rad Y X Z) by (unfold rad; f_equal; ring).
+  pose proof (rad_gt_abs Y X Z H). pose proof (Rle_abs Y). lra.
+Qed.
+Lemma rad_minus_pos_z X Y Z : X <> 0 \/ Y <> 0 -> 0 < - Z + rad X Y Z.
+Proof.
+  intros H. replace (rad X Y Z) with (rad Z X Y) by (unfold rad; f_equal; ring).
+  pose proof (rad_gt_abs Z X Y H). pose proof (Rle_abs Z). lra.
+Qed.
 
 Lemma ln_prod4 p q r s : 0 < p -> 0 < q -> 0 < r -> 0 < s -> ln (p * q * r * s) = ln p + ln q + ln r + ln s.
 Proof.
@@ -69,9 +77,9 @@ Lemma ff2x_corner x y z a b c : off_planes x y z a b c ->
 Proof.
   intros (Hxa & Hxp & Hyb & Hyp & Hzc & Hzp).
   unfold ff2x, cuboid_ff, corner_sum, Gx. cbv zeta.
-  change (sqrt ((?X ^ 2 + ?Y ^ 2) + ?Z ^ 2)) with (rad X Y Z).
   repeat match goal with |- context [sqrt (?X ^ 2 + ?Y ^ 2 + ?Z ^ 2)] => change (sqrt (X ^ 2 + Y ^ 2 + Z ^ 2)) with (rad X Y Z) end.
-  rewrite !ln_prod4 by (apply rad_plus_pos; auto). ring.
+  rewrite ln_prod4; [rewrite ln_prod4; [ring|..]|..];
+    match goal with |- 0 < ?X + rad ?X ?Y ?Z => apply (rad_plus_pos X Y Z); auto end.
 Qed.
 
 Lemma ff2y_corner x y z a b c : off_planes x y z a b c ->
@@ -82,7 +90,8 @@ Proof.
   repeat match goal with |- context [sqrt (?X ^ 2 + ?Y ^ 2 + ?Z ^ 2)] => change (sqrt (X ^ 2 + Y ^ 2 + Z ^ 2)) with (rad X Y Z) end.
   match goal with |- context [ln (?p * ?q * (?u - ?v) * (?u' - ?v'))] =>
     replace (p * q * (u - v) * (u' - v')) with (p * q * (- u + v) * (- u' + v')) by ring end.
-  rewrite !ln_prod4 by (apply rad_minus_pos; auto). ring.
+  rewrite ln_prod4; [rewrite ln_prod4; [ring|..]|..];
+    match goal with |- 0 < - ?W + rad ?X ?Y ?Z => apply (rad_minus_pos_y X Y Z) || apply (rad_minus_pos_z X Y Z); auto end.
 Qed.
 
 Lemma ff2z_corner x y z a b c : off_planes x y z a b c ->
@@ -93,5 +102,6 @@ Proof.
   repeat match goal with |- context [sqrt (?X ^ 2 + ?Y ^ 2 + ?Z ^ 2)] => change (sqrt (X ^ 2 + Y ^ 2 + Z ^ 2)) with (rad X Y Z) end.
   match goal with |- context [ln (?p * (?u - ?v) * ?q * (?u' - ?v'))] =>
     replace (p * (u - v) * q * (u' - v')) with (p * (- u + v) * q * (- u' + v')) by ring end.
-  rewrite !ln_prod4 by (apply rad_minus_pos; auto). ring.
+  rewrite ln_prod4; [rewrite ln_prod4; [ring|..]|..];
+    match goal with |- 0 < - ?W + rad ?X ?Y ?Z => apply (rad_minus_pos_y X Y Z) || apply (rad_minus_pos_z X Y Z); auto end.
 Qed.
